@@ -145,6 +145,9 @@ func (pc *PacketConn) StartUnreachable() {
 	pc.context, pc.cancel = context.WithCancel(pc.s.Context())
 	pc.unreachableSubs = utils.NewBroker(pc.context, reflect.TypeOf(UnreachableNotification{}))
 	iChan := pc.s.GetUnreachableBroker().Subscribe()
+	if iChan == nil {
+		return
+	}
 	go func() {
 		<-pc.context.Done()
 		pc.s.GetUnreachableBroker().Unsubscribe(iChan)
